@@ -60,8 +60,9 @@ def run(rep, tier, seed, replay):
             coq["discharged"], coq["obligations"], "; ".join(coq["lint"] + coq["bad_axioms"]), coq["log"][-1500:]),
             theorem="coq/C02/Properties.v", found_input=False)
     rep.cov.update(evaluations=len(cases), operations=nops, distinct_nontrivial=len(nontrivial),
-                   rule="cases = corpus + hand list + random layouts/op lists (valid and malformed streams) + page-sized layouts + "
-                        "exhaustive small size vectors; non-trivial = distinct case in which the implementation created a chunk, "
+                   rule="cases = corpus + hand list + random layouts/op lists (valid and malformed streams) + close/re-open/update_completed "
+                        "sequences + loader-driven torrents (download_add, files not path-sorted) + sparse >4 GiB layouts (pread at "
+                        "absolute offsets) + page-sized layouts + exhaustive small size vectors; non-trivial = distinct case in which the implementation created a chunk, "
                         "wrote into it successfully and the files were read back from disk",
                    samples=samples, input_distribution=stats, mismatches=mism,
                    exhaustive=stats.get("exhaustive_scope", False))
@@ -69,6 +70,13 @@ def run(rep, tier, seed, replay):
                         "size_chunks()-1 and is not called on an empty torrent)",
                         "piece count below 2^32 ((total + cs - 1) / cs < 2^32; the uint32 truncation of the count is C08's subject)",
                         "bitfield allocated (Download::open state); files are not modified by anyone else while the torrent is open",
+                        "op R = FileList/Download close + open + bitfield allocate + unset_all + update_completed (what Download::open + "
+                        "Download::hash_check do without resume data); op S sets a bitfield bit only (resume / hash bookkeeping), U = update_completed",
+                        "per-file completed_chunks: exact (= set pieces overlapping the file, <= its piece count) for non-empty files that do not "
+                        "start exactly on a piece boundary; for files starting exactly at the end of a completed piece and for empty files passed by "
+                        "the inc_completed walk the oracle accepts the code's known extra increment (DESIGN.md section 8, C02 note) and nothing else",
+                        "file images in the model are sparse (length + written cells, zero elsewhere) so >4 GiB files are ordinary inputs; such cases "
+                        "are compared through pread windows (op P), never dumped",
                         "one Chunk alive at a time in the correspondence (the ChunkList reference counting is not part of C02)",
                         "buffer position+length below 2^32 (Chunk::to/from/compare_buffer compute position+length in uint32; the model "
                         "reproduces the wrapped bound check but walks the parts with the unwrapped end; the theorems assume pos+len < 2^32)"]
